@@ -44,7 +44,7 @@ def queries(tier, seed):
         lens_q = [full, full - 1, base + pal, 0] if common else [full]
         lens_t = sorted(set([0, 1, 2, 10, 14, 18, 26, 30, base - 1, base, base + pal - 1, base + pal, base + pal + 1, full - 1, full, full + 2] + list(range(base + pal, full))))
         for L in [x for x in lens_t if x >= 0]:
-            t = 'quick' if (L in lens_q and (common or (hdr != 40 and (w, h) == (3, 2) and bpp in (24, 8)) or (hdr == 40 and bpp in (24, 8) and comp == 0 and L == full))) else 'thorough'
+            t = 'quick' if (L in lens_q and (common or (hdr != 40 and (w, h) == (3, 2) and bpp in (24, 8) and comp == 0 and ncol < 16) or (hdr == 40 and bpp in (24, 8) and comp == 0 and L == full))) else 'thorough'
             add('bmp', name, 'convert_image', 1, None, par, L, t)
             if pixt and comp == 0: add('bmp', name, 'read_image', 1, pixt, par, L, t if (w, h) == (3, 2) else 'thorough')
             if L in (0, 10, 14, 18, 30, base - 1, base): add('bmp', name, 'info', 1, None, par, L, t if (common and bpp == 24) else 'thorough')
